@@ -34,6 +34,12 @@ class Prop(PropBase):
                     ans.append(rng.choice(pool))
                 scn_all.append(scen.mixed_scenario(rng, self.L, t, f'c06_{t}_{r}', cfg, answers=ans, npk=rng.choice([4, 6, 9]) if t != 'RSM1_JUMBO' else 2,
                                                    malformed_p=0.1, step=rng.choice([20, 200, 2000]), big_steps=True))
+        # frames of 0, 1, lasers-1, lasers, lasers+1 valid points in dense output (a frame smaller than one column of lasers is still
+        # a non-empty frame: delivered, height 1), and NaN-kept output under a window that cuts through blocks (still whole columns)
+        for ti, t in enumerate(scen.MECH):
+            scn_all.append(scen.sparse_scenario(rng, self.L, t, f'c06_sparse_{t}', dense=1, angle=[0, 9000, 35990][ti % 3], answers=[1, 2, 3] * 8))
+            cfg = scen.rand_cfg(rng, dense=0, wait=0, mode=1, start=[9010, 27000, 35990][ti % 3], end=[27000, 9000, 18005][ti % 3])
+            scn_all.append(scen.mixed_scenario(rng, self.L, t, f'c06_window_{t}', cfg, npk=6, malformed_p=0.0, step=200, gap_p=0.0, difop_at=0))
         # stop() / restart while the caller's pool is dry: the decoding thread is retrying the get callback when the exit request
         # arrives; the null answers must still never be dereferenced and the clouds of both sessions must pass the rules
         ns = []
